@@ -15,7 +15,7 @@ ASSUMPTIONS = [
 ]
 
 GROUP = Group("buf", jobs=12, mem_gb=12, timeout_s=600)
-PLAN = [(GROUP, {"quick": ["::q_", "c10_kf_"], "thorough": ["::t_"]})]
+PLAN = [(GROUP, {"quick": ["::q_", "c10_kf_", "c10_q_"], "thorough": ["::t_"]})]
 
 
 def run(tier):
